@@ -71,6 +71,8 @@ def main():
     tier = a.tier if a.tier in ("quick", "thorough") else "quick"
     seed = int(os.environ.get("VERIF_SEED", "0") or 0)
     os.environ["VERIF_TIER"] = tier
+    if tier == "thorough":
+        os.environ.setdefault("VERIF_CROSSCHECK", "40")  # every 40th `unsat` is re-decided by cvc5 (second solver); a disagreement is exit 2
     t0 = time.time()
     # trusted base first: the handler table must agree with torch on constant payloads (a disagreement is exit 2, never a verdict)
     conf_n, conf_fail = 0, []
